@@ -16,7 +16,6 @@ import (
 	"fmt"
 	"os"
 	"os/exec"
-	"regexp"
 	"strings"
 	"time"
 
@@ -39,6 +38,7 @@ type singleOut struct {
 	Class  string     `json:"class,omitempty"`
 	Rest   int        `json:"rest"`
 	Digest string     `json:"digest,omitempty"`
+	Fields []fieldSum `json:"fields,omitempty"`
 	Lines  []dumpLine `json:"lines,omitempty"`
 }
 
@@ -72,6 +72,7 @@ func singleMain() {
 		if okv {
 			o.Digest = hex.EncodeToString(dg[:])
 			o.Lines = append([]dumpLine(nil), wk.lines...)
+			o.Fields = append([]fieldSum(nil), wk.fields...)
 		} else {
 			if e != nil {
 				o.Err = e.Error()
@@ -142,42 +143,55 @@ func firstDiff(a, b []dumpLine) (fieldDiff, bool) {
 	return fieldDiff{}, false
 }
 
-var (
-	reIndex = regexp.MustCompile(`\[[0-9]+\]`)
-	reKey   = regexp.MustCompile(`\[[^\]]+\]`)
-)
-
-// pathClass collapses indices and map keys: ".Extensions[3].Value" -> ".Extensions[].Value".
-func pathClass(p string) string {
-	p = reIndex.ReplaceAllString(p, "[]")
-	return reKey.ReplaceAllString(p, "[]")
+// sigTarget folds entry points that share their decoder into one signature
+// name (the witness names the concrete entry point): ParseCertificate and
+// ParseTBSCertificate share parseCertificate; the number of bytes consumed by
+// asn1.Unmarshal does not depend on the Go type decoded into.
+func sigTarget(target, kind string) string {
+	if target == "x509.ParseCertificate" || target == "x509.ParseTBSCertificate" {
+		return "x509.Parse[TBS]Certificate"
+	}
+	if kind == "rest" && strings.HasPrefix(target, "asn1.Unmarshal(") {
+		return "asn1.Unmarshal"
+	}
+	return target
 }
 
-// zeroish reports whether a rendered dump value is the zero value of its type
-// (false, 0, nil, empty) or the end of the dump.
-func zeroish(v string) bool {
-	switch {
-	case v == "false", v == "0", v == "(dump ends)", v == "big.Int 0":
-		return true
-	case strings.HasPrefix(v, "nil "), strings.HasPrefix(v, "string[0] "), strings.HasPrefix(v, "bytes[0] "), strings.HasSuffix(v, " len=0"):
-		return true
+// fieldClass names the first top-level field in which two struct results
+// differ and the direction of the difference. "permissive mode knows MORE than
+// strict mode" (strict mode swallowed an inner error) and "permissive mode LOST
+// or CHANGED something strict mode decoded" are different signatures.
+func fieldClass(names []string, s, p []fieldSum) string {
+	if len(names) == 0 || len(s) != len(names) || len(p) != len(names) {
+		return "(decoded value)"
 	}
-	return false
+	for i := range names {
+		if s[i] == p[i] {
+			continue
+		}
+		switch {
+		case s[i].Zero && !p[i].Zero:
+			return "at ." + names[i] + " (strict: zero value, permissive: set)"
+		case !s[i].Zero && p[i].Zero:
+			return "at ." + names[i] + " (strict: set, permissive: zero value)"
+		}
+		return "at ." + names[i] + " (both set, values differ)"
+	}
+	return "(no top-level field summary differs: 32-bit hash collision)"
 }
 
-// direction is the coarse class of a field difference; it is part of the
-// violation signature, so that "permissive mode knows MORE than strict mode"
-// (strict mode swallowed an inner error) and "permissive mode LOST or CHANGED
-// something strict mode decoded" are different signatures.
-func direction(d fieldDiff) string {
-	zs, zp := zeroish(d.Strict), zeroish(d.Permissive)
-	switch {
-	case zs && !zp:
-		return "strict: zero value, permissive: set"
-	case !zs && zp:
-		return "strict: set, permissive: zero value"
+// signature is THE classification of a violation; the parent applies it to the
+// streamed records of every difference, the fresh-process re-run applies it
+// again to its own results.
+func signature(target, kind, permClass string, names []string, s, p []fieldSum) string {
+	t := sigTarget(target, kind)
+	switch kind {
+	case "fail":
+		return fmt.Sprintf("%s: strict ok, permissive fails (%s)", t, permClass)
+	case "rest":
+		return fmt.Sprintf("%s: strict ok, permissive ok but consumed a different number of bytes", t)
 	}
-	return "both set, values differ"
+	return fmt.Sprintf("%s: strict ok, permissive differs %s", t, fieldClass(names, s, p))
 }
 
 // verdict applies the oracle of the property to one pair of fresh results.
@@ -186,19 +200,18 @@ func verdict(target string, s, p singleOut) (sig string, diff *fieldDiff) {
 	if !s.OK {
 		return "", nil // the statement only speaks about inputs strict mode accepts
 	}
+	names := targets[targetByID[target]].fields
 	if !p.OK {
-		return fmt.Sprintf("%s: strict ok, permissive fails (%s)", target, p.Class), nil
+		return signature(target, "fail", p.Class, nil, nil, nil), nil
 	}
 	if s.Rest != p.Rest {
-		return fmt.Sprintf("%s: strict ok, permissive ok but consumed a different number of bytes", target),
-			&fieldDiff{Path: "len(rest)", Strict: fmt.Sprint(s.Rest), Permissive: fmt.Sprint(p.Rest)}
+		return signature(target, "rest", "", nil, nil, nil), &fieldDiff{Path: "len(rest)", Strict: fmt.Sprint(s.Rest), Permissive: fmt.Sprint(p.Rest)}
 	}
 	if s.Digest != p.Digest {
-		d, ok := firstDiff(s.Lines, p.Lines)
-		if !ok {
-			return fmt.Sprintf("%s: strict ok, permissive differs (digest only; dumps equal: harness defect)", target), nil
+		if d, ok := firstDiff(s.Lines, p.Lines); ok {
+			diff = &d
 		}
-		return fmt.Sprintf("%s: strict ok, permissive differs at %s (%s)", target, pathClass(d.Path), direction(d)), &d
+		return signature(target, "digest", "", names, s.Fields, p.Fields), diff
 	}
 	return "", nil
 }
